@@ -62,7 +62,7 @@ Section Parse.
   Lemma nf_loop_safe : forall res i acc, safe (nf_loop fx unquote res i acc).
   Proof.
     induction res as [|v tl IH]; intros i acc; cbn [nf_loop]; [apply safe_ok|].
-    destruct (255 <? blen v); [apply safe_err|].
+    destruct (negb fx && (255 <? blen v)); [apply safe_err|].
     destruct (trim_spec v) as [v1 [E1 L1]]. rewrite E1. cbn [bind].
     destruct ((blen v1 =? 0) && Nat.even i); [apply safe_err|].
     destruct (Z.ltb_spec 0 (blen v1)).
@@ -101,7 +101,9 @@ Section Parse.
   Proof.
     induction res as [|v tl IH]; intros i l0 r F0; cbn [nf_loop]; intros E.
     { injection E as <-. exists []. rewrite app_nil_r. repeat split. constructor. }
-    destruct (Z.ltb_spec 255 (blen v)); [discriminate|].
+    assert (Hraw : fx = true \/ blen v <= 255).
+    { destruct fx; [left; reflexivity|right]. cbn [negb andb] in E. destruct (Z.ltb_spec 255 (blen v)); [discriminate|lia]. }
+    destruct (negb fx && (255 <? blen v)); [discriminate|].
     destruct (trim_spec v) as [v1 [E1 L1]]. rewrite E1 in E. cbn [bind] in E.
     destruct ((blen v1 =? 0) && Nat.even i); [discriminate|].
     assert (G : forall v2, (fx = true \/ blen v2 <= 255) ->
@@ -120,9 +122,10 @@ Section Parse.
     - destruct (at_ok v1 0) as [c Hc]; [lia|]. rewrite Hc in E. cbn [bind] in E.
       destruct (byte_eqb c c_dquote || byte_eqb c c_bquote).
       + destruct (unquote v1) as [u|] eqn:Eu; cbn [bind] in E; [|discriminate].
-        apply (G u); [destruct Hshort as [Hf|Hs]; [left; exact Hf|right; apply (Hs v1); [lia|exact Eu]]|exact E].
-      + cbn [bind] in E. apply (G v1); [right; lia|exact E].
-    - cbn [bind] in E. apply (G v1); [right; lia|exact E].
+        apply (G u); [|exact E]. destruct Hraw as [Hf|Hr]; [left; exact Hf|].
+        destruct Hshort as [Hf|Hs]; [left; exact Hf|right; apply (Hs v1); [lia|exact Eu]].
+      + cbn [bind] in E. apply (G v1); [destruct Hraw as [Hf|Hr]; [left; exact Hf|right; lia]|exact E].
+    - cbn [bind] in E. apply (G v1); [destruct Hraw as [Hf|Hr]; [left; exact Hf|right; lia]|exact E].
   Qed.
 
   Lemma fields_of_kv_wf kvs r : fields_of_kv fx unquote kvs = Ok r -> wf_fields r.
